@@ -338,8 +338,34 @@ class Verdict:
     def add(self, sig, what, replay_obj):
         self.viol.append({"sig": sig, "what": what, "replay": replay_obj})
 
+    def probe_known(self):
+        """A known finding that the sweep did not happen to hit is re-demonstrated by its own replay file
+        (`"replay": "findings/<file>.json"` in known_findings.jsonl): `bin/check <id> --replay <file>` in a
+        subprocess; if it still reproduces it is counted as hit (and printed as KNOWN-FINDING by finish)."""
+        known = [f for f in load_findings() if f.get("property") == self.pid and f.get("status") == "known" and f.get("replay")]
+        hit = {v["sig"] for v in self.viol}
+        for f in known:
+            if f["sig"] in hit:
+                continue
+            path = os.path.join(VERIF, f["replay"])
+            if not os.path.exists(path):
+                continue
+            env = dict(os.environ)
+            env["VERIF_EVIDENCE_DIR"] = new_scratch("verif-probe-ev-")
+            try:
+                p = subprocess.run([os.path.join(VERIF, "bin", "check"), self.pid, "--replay", path], stdout=subprocess.PIPE,
+                                   stderr=subprocess.STDOUT, text=True, timeout=1800, env=env)
+                if p.returncode == 1:
+                    self.add(f["sig"], "reproduced by its replay " + f["replay"], {"kind": "probe", "replay": f["replay"]})
+            except subprocess.TimeoutExpired:
+                pass
+            finally:
+                shutil.rmtree(env["VERIF_EVIDENCE_DIR"], ignore_errors=True)
+
     def finish(self):
         """Prints KNOWN-FINDING / VIOLATION lines; returns number of unlisted violations."""
+        if os.environ.get("VERIF_NO_PROBE") != "1":
+            self.probe_known()
         known = [f for f in load_findings() if f.get("property") == self.pid and f.get("status") == "known"]
         n_new = 0
         seen_new = set()
